@@ -103,7 +103,7 @@ def observe(obs, pos, fn):
 
 
 def variant_backend(ci: int, cc: int, after: bool, psel: int):
-    be = Backend(page_size=[None, 1, 2][psel])
+    be = Backend(page_size=[None, 1, 2][psel], empty_pages=(psel == 1))
     if ci > 0:
         be.crash_call = (ci, cc, "after" if after else "before")
     return be
@@ -149,7 +149,7 @@ def compare_runs(make_handler, ci, cc, after, psel, k0, k1, setup=None):
 
 
 _B = ("crash at invocation 0(none)..3 x API call 1..4 x before/after apply; consumer runs 0 or 2 steps ahead right after the first hand-over of each invocation; ")
-PAGE = [None, 1, 2]
+PAGE = [None, "1 (each continuation preceded by an empty page with a marker)", 2]
 
 
 def tmpl_steps_wait_child(a, b, c, _flag):
